@@ -142,6 +142,8 @@ const iColID = "bafyverifcol"
 type iDoc struct {
 	id   string
 	vals []iVal
+	// a field the index does not cover (conf or=1)
+	extra iVal
 }
 
 // VerifH_C07_Index — conf: k0,k1 (kinds; k1 = -1 for a single-field index), unique, op0 (operator index on the
@@ -185,6 +187,9 @@ func VerifH_C07_Index() {
 	docs := make([]iDoc, nd)
 	for d := 0; d < nd; d++ {
 		docs[d].id = "bae-doc" + string(rune('0'+d))
+		if vConfInt("or") != 0 && nf == 1 {
+			docs[d].extra = iMkVal("x"+string(rune('0'+d)), 0, false)
+		}
 		hasNil := false
 		var fields []keys.IndexedField
 		for i := 0; i < nf; i++ {
@@ -233,6 +238,16 @@ func VerifH_C07_Index() {
 	}
 	if op1 := vConfInt("op1"); op1 >= 0 && nf == 2 {
 		mkCond(1, op1, "c1", false)
+	}
+	// conf or=1: the condition on the indexed field is one branch of an _or whose other branch is a condition on a
+	// field the index does not cover (the second document field, when the index has one field): documents that
+	// satisfy only the other branch must be returned as well
+	if vConfInt("or") != 0 && nf == 1 {
+		other := iMkVal("cx", 0, false)
+		conds = map[connor.FilterKey]any{&mapper.Operator{Operation: "_or"}: []any{
+			conds,
+			map[connor.FilterKey]any{&mapper.PropertyIndex{Index: 1}: map[connor.FilterKey]any{&mapper.Operator{Operation: "_eq"}: other.box()}},
+		}}
 	}
 	var flt *mapper.Filter
 	if len(conds) > 0 {
@@ -284,6 +299,9 @@ func VerifH_C07_Index() {
 		row := core.Doc{Fields: make(core.DocFields, nf)}
 		for i := 0; i < nf; i++ {
 			row.Fields[i] = docs[d].vals[i].box()
+		}
+		if vConfInt("or") != 0 && nf == 1 {
+			row.Fields = append(row.Fields, docs[d].extra.box())
 		}
 		match, err := mapper.RunFilter(row, flt)
 		vAssert(err == nil, "scan-filter-no-error")
